@@ -103,7 +103,7 @@ def build(desc, d, name="f.sgz"):
     old_style = desc.get("version", "0.2.8").startswith("0.0.")
     raw = spec.write_sgz(data, rate, bs, version=ver, z0=desc.get("z0", 0), dz_us=desc.get("dz_us", 4000),
                          zero_blockshape=old_style and bs[:2] == (4, 4) and rate >= 1 and desc.get("zero_bs", True),
-                         pad_last_array=desc.get("pad_last", True), **kw)
+                         pad_last_array=desc.get("pad_last", True), f64_axis=desc.get("f64"), **kw)
     path = os.path.join(d, name)
     with open(path, "wb") as f:
         f.write(raw)
@@ -126,10 +126,14 @@ def spec_file_3d(draw, irregular=None, max_voxels=150_000, versions=VERSIONS, la
             "version": version, "values": draw(gen.values_spec),
             "il": list(draw(gen.line_axis(n_il))), "xl": list(draw(gen.line_axis(n_xl))),
             "z0": draw(st.sampled_from([0, 0, 100, -24, 8])),
-            "dz_us": draw(st.sampled_from([4000, 2000, 1000, 3000, 500, 250])),
+            "dz_us": draw(st.sampled_from([4000, 2000, 1000, 3000, 500, 250, 125, 333])),
             }
     if version in ("0.0.0.dev", "0.1.3", "0.1.6"):
         desc["dz_us"] = draw(st.sampled_from([4000, 2000, 1000]))  # whole milliseconds before 0.1.7
+    elif draw(st.integers(0, 5)) == 0:
+        # the float64 first-sample / interval fields (bytes 84-99), as the ZGY route fills them: they take
+        # precedence over the int32 fields, which then hold the truncated values
+        desc["f64"] = [desc["z0"] + draw(st.sampled_from([0.0, 0.5, 0.25, 0.001])), float(desc["dz_us"]) + draw(st.sampled_from([0.0, 0.0, 0.5]))]
     extra = draw(st.lists(st.sampled_from([f for f in ARRAY_FIELDS if f not in (189, 193)]), max_size=3, unique=True))
     desc["arrays"] = sorted([189, 193] + extra)
     # writers only ever point a duplicate row at an *earlier* row of the table
